@@ -83,6 +83,7 @@ def gen_tree(rng, depth_above=None, small=False):
         content = bytes((j * 131 + i * 17 + (j >> 8)) & 0xff for j in range(n)) if rng.chance(2, 3) else rng.bytes(n)
         sub = rng.choice([b'', b'', b'sub/', b'sub/deep/', b'dir.with.dots/'])
         t.file(root + sub + nm, content); names.append(sub + nm)
+    t.file(root + b'sub/deep/keep.txt', b'keep')
     if rng.chance(2, 3): t.file(root + b'sub/index.html', b'<p>sub index</p>')
     if rng.chance(1, 2): t.file(root + b'page.html', b'<p>page</p>'); names.append(b'page.html')
     if rng.chance(1, 2): t.dir(root + b'emptydir')
@@ -109,8 +110,10 @@ def parse_result(line):
     m = re.match(r'^(.*?) w=(\S+) recv=(\S+) fl=(\d+)$', line)
     if not m:
         return dict(head=line, writes=[], recv=b'', flushes=0, raw=line)
-    writes = [] if m.group(2) == '-' else [C.unhx(x) for x in m.group(2).split('.')]
-    return dict(head=m.group(1), writes=writes, recv=C.unhx(m.group(3)), flushes=int(m.group(4)), raw=line)
+    parts = [] if m.group(2) == '-' else m.group(2).split('.')
+    writes = [C.unhx(x) for x in parts if not x.startswith('#')]          # the first buffer (full response)
+    later = [int(x[1:]) for x in parts if x.startswith('#')]               # lengths of the later buffers
+    return dict(head=m.group(1), writes=writes, later=later, recv=C.unhx(m.group(3)), flushes=int(m.group(4)), raw=line)
 
 def canon(line):
     """mask the two timestamp headers inside the hex payloads of a serve result line"""
@@ -120,17 +123,7 @@ def canon(line):
     head = r['head']
     if head.startswith('ret:'):
         head = 'ret:' + C.hx(mask_ts(C.unhx(head[4:])))
-    # with write_all every later buffer is a suffix of the first: mask the whole response once
-    # and cut the suffixes out of the masked text (a suffix may start inside a masked value)
-    if r['writes']:
-        full = r['writes'][0]; mfull = mask_ts(full)
-        outw = []
-        for w in r['writes']:
-            if len(mfull) == len(full) and full.endswith(w): outw.append(mfull[len(full) - len(w):])
-            else: outw.append(mask_ts(w))
-        ws = '.'.join(C.hx(w) for w in outw)
-    else:
-        ws = '-'
+    ws = '.'.join([C.hx(mask_ts(w)) for w in r['writes']] + ['#%d' % n for n in r.get('later', [])]) or '-'
     return f"{head} w={ws} recv={C.hx(mask_ts(r['recv']))} fl={r['flushes']}"
 
 DEFAULT_ENV = [('RWS_CONFIG_IP', '127.0.0.1'), ('RWS_CONFIG_PORT', '7878'), ('RWS_CONFIG_THREAD_COUNT', '200'),
